@@ -13,7 +13,7 @@
 (* error.                                                                  *)
 (* Targets: ok (existing regular file), missing (ENOENT), dir (EISDIR),    *)
 (* child-of-file (ENOTDIR), existing under mode x (EEXIST), /dev/full      *)
-(* (ENOSPC), garbage / short / empty pcap content.  $D stands for the      *)
+(* (ENOSPC; also the standard output of the run), garbage / short / empty pcap content.  $D stands for the      *)
 (* private directory of the run, prepared by the driver.                   *)
 (***************************************************************************)
 EXTENDS Integers, Sequences, SequencesExt, FiniteSets, TLC, Json, IOUtils
@@ -46,6 +46,12 @@ Ops == <<
   Op("write big full-device", TRUE, "write(open(\"/dev/full\", \"w\"), BIG)"),
   Op("flush ok", FALSE, "flush(WOK)"),
   Op("flush full-device", TRUE, "flush(WFULL)"),
+  \* standard output of every run is a full device (the driver points it at /dev/full): text without a line break
+  \* stays in the stream's buffer, a big write or a flush with text pending meets ENOSPC
+  Op("write stdout small full-device", FALSE, "write(stdout, \"abc\")"),
+  Op("write stdout big full-device", TRUE, "write(stdout, BIG)"),
+  Op("flush stdout pending full-device", TRUE, "FLUSHOUT()"),
+  Op("flush stderr", FALSE, "flush(stderr)"),
   Op("pcap_open ok", FALSE, "pcap_open(\"$D/ok.pcap\")"),
   Op("pcap_open missing", TRUE, "pcap_open(\"$D/missing.pcap\")"),
   Op("pcap_open dir", TRUE, "pcap_open(\"$D/dir\")"),
